@@ -43,6 +43,33 @@ def sweep(max_members, max_parts, jobs=16):
     return n, fails[:10]
 
 
+def adoption_sweep():
+    """'the assignments members adopt are exactly the ones distributed for that generation': what a member adopts is what
+    ConsumerProtocolMemberAssignment.partitions() reads out of the SyncGroup bytes. Every list of up to 3 entries over the
+    topics t, u with partition lists out of [], [0], [2, 1], [0, 3] - a topic may be listed in several entries, in any order
+    (a custom assignor, a leader running another client library) - encoded, decoded, read: exactly the pairs that were
+    distributed, each once."""
+    import itertools
+    from aiokafka.coordinator.protocol import ConsumerProtocolMemberAssignment as A
+    from aiokafka.structs import TopicPartition
+    n, fails = 0, []
+    plists = ([], [0], [2, 1], [0, 3])
+    entries = [(t, ps) for t in ("t", "u") for ps in plists]
+    for k in (1, 2, 3):
+        for combo in itertools.product(entries, repeat=k):
+            sent = [TopicPartition(t, p) for t, ps in combo for p in ps]
+            if len(set(sent)) != len(sent):
+                continue                                   # a leader does not give a partition twice
+            n += 1
+            raw = A(0, [(t, list(ps)) for t, ps in combo], b"").encode()
+            got = A.decode(raw).partitions()
+            if sorted(got) != sorted(sent):
+                fails.append({"distributed_entries": [(t, list(ps)) for t, ps in combo], "adopted": sorted(tuple(x) for x in got)})
+                if len(fails) >= 10:
+                    return n, fails
+    return n, fails
+
+
 def main():
     ap = argparse.ArgumentParser()
     ap.add_argument("--tier", default="quick")
@@ -55,6 +82,20 @@ def main():
                    "non-empty subscriptions: pairwise disjoint, subscribed topics only, every partition of a subscribed topic "
                    "assigned" % (mm, mp_),
           "failures": fails, "replay": {"script": REPLAY}})
+    n, fails = adoption_sweep()
+    emit({"name": "adopted-is-what-was-distributed", "exhaustive": True, "cases": n, "distinct_nontrivial": n,
+          "bound": "every list of <= 3 assignment entries over topics t, u x partition lists [], [0], [2, 1], [0, 3] (a topic may be "
+                   "listed in several entries, any order), through ConsumerProtocolMemberAssignment encode / decode / partitions()",
+          "failures": fails, "replay": {"script": REPLAY_ADOPT}})
+
+
+REPLAY_ADOPT = '''
+import sys
+sys.path.insert(0, "/verif")
+from bounded import C05
+n, fails = C05.adoption_sweep()
+VIOLATED = bool(fails); DETAIL = "%d assignments, adopted differs from distributed: %r" % (n, fails[:1])
+'''
 
 
 REPLAY = '''
